@@ -132,6 +132,17 @@ func (ex *Exec) atpAPI(name string, args []Value, fr *Frame, pos token.Pos) (Val
 		return nil, true
 	case "verifEncodesUnlocked":
 		return bvConst(64, uint64(ex.encodesUnlocked)), true
+	case "verifEncodeLockBegin":
+		ex.encodesUnlocked = 0
+		return nil, true
+	case "verifEncodeLockCheck":
+		id := ex.concName(args[0])
+		ex.addEvent("sharedcheck", id, nil)
+		if ex.encodesUnlocked > 0 {
+			m, _, _ := ex.model(nil)
+			ex.recordCE("sharedwrite", id, fmt.Sprintf("%d Encode call(s) on a shared encoder were made with no mutex held", ex.encodesUnlocked), ex.posOf(fr, pos), "", m)
+		}
+		return nil, true
 	}
 	return nil, false
 }
@@ -193,7 +204,19 @@ func (ex *Exec) pipeOf(v Value, fr *Frame, pos token.Pos) *MsgPipe {
 func (ex *Exec) cborEncode(enc Value, v IfaceV, fr *Frame, pos token.Pos) Value {
 	p := ex.pipeOf(enc, fr, pos)
 	if len(ex.heldLocks()) == 0 {
-		ex.encodesUnlocked++
+		// not held by the encoding goroutine itself; a parent that holds the lock while its helper goroutine
+		// encodes (sendRuntimeMessage) also serialises the writes
+		anyHeld := false
+		if ex.sched != nil {
+			for _, g := range ex.sched.gs {
+				if !g.done && len(g.held) > 0 {
+					anyHeld = true
+				}
+			}
+		}
+		if !anyHeld {
+			ex.encodesUnlocked++
+		}
 	}
 	ex.yield("encode")
 	if p.readerClosed || p.writerClosed {
